@@ -18,7 +18,8 @@ func init() {
 		Explanation: "(R1) the back-off function's constants and shape equal the stated schedule: first call yields 16 ms, then x2 below 5 s, +5 s below 30 s, constant afterwards, every return classified; " +
 			"(R2) its blocking select has exactly the two cases time.After(backoff) and ctx.Done(), the latter returning ctx.Err(); " +
 			"(R3) in every retry loop (SendRPC, SendBatch, lookupRegion, lookupAllRegions, establishRegion, checkProcedureWithBackoff) every CFG cycle contains a call of the back-off function, or is a bounded range/counted loop, or is bounded by a retry counter tested as 'counter > K' (K<=1) and incremented on every such pass, or is a tabled NotServingRegionError-only cycle whose structural precondition (the failed region was marked unavailable so the next attempt blocks on its availability channel) is re-checked; " +
-			"(R4) at every back-off call inside a loop the duration argument is the loop-carried result of the back-off calls (so the schedule advances) starting from backoffStart/zero, and the error result leaves the loop.",
+			"(R4) at every back-off call inside a loop the duration argument is the loop-carried result of the back-off calls (so the schedule advances) starting from backoffStart/zero, and the error result leaves the loop." +
+			" Added after the seeded-change rounds: (R3) the tabled NotServingRegionError cycle has a second precondition - every successful return of getRegionAndClientForRPC passed reg.AvailabilityChan(); the per-round 'retry later seen' flag returned by waitForCompletion only goes from false to true; the ServerError cap of SendBatch examines the retry list as the round's wait left it; (R4) a constant enters the loop-carried back-off only from outside the loop (no reset inside).",
 		Residue:   "measured gaps between attempts (real time); fairness of time.After",
 		Technique: "SSA pattern rules on the back-off function + CFG cycle search with wait blocks removed (loop-wait analysis)",
 		Run:       runC17,
